@@ -41,7 +41,8 @@ def generate(rng, opts):
                 t, n = ["list", ["num", dt]], r.choice([1, 2, 3])
             roots.append({"type": t, "spec": lg.SpecGen(r, opts, long_lists=True, special_rate=r.choice([0.1, 0.3, 0.6])).array(t, n)})
             continue
-        t = lg.gen_type(r, 0, opts)
+        bias = r.choice([None, None, None, None, {"reglist": 6}, {"opt": 4}, {"rec": 4}, {"union": 3}])     # swarm
+        t = lg.gen_type(r, 0, dict(opts, _type_bias=bias) if bias else opts)
         n = r.choice([0, 0, 1, 1, 2, 3, 3, 5, 8])
         roots.append({"type": t, "spec": lg.SpecGen(r, opts).array(t, n)})
     if r.random() < 0.08:
@@ -461,6 +462,19 @@ def execute(node, case, rec, opts):
         slots.append(s)
         rec.ev(t, O.op_class(op), vm.to_jsonable(s.value))
         rec.probe("operation_returned")
+        # the one statement about *what* an operation returns that needs no model: a[:, i] picks item i of every list, and
+        # must be refused when some list has no item i (an index exactly one past the end included)
+        its = op.get("items") if op["op"] == "slice" else None
+        src = slots[i].value
+        if its and len(its) == 2 and its[0]["k"] == "range" and its[0]["step"] != 0 and its[1]["k"] == "at" \
+                and isinstance(src, list) and all(isinstance(row, list) for row in src):
+            rows = src[slice(its[0]["start"], its[0]["stop"], its[0]["step"])]
+            j = its[1]["i"]
+            if any(not (-len(row) <= j < len(row)) for row in rows):
+                raise Violation("errors", "index_beyond_a_list_accepted",
+                                {"event": ev, "index": j, "list_lengths": [len(row) for row in rows][:20],
+                                 "facts": operand_facts(node, slots[i].h, op)}, at=t)
+            rec.probe("at_inside_every_list")
     if corrupt is not None and not corrupted and corrupt["after"] >= len(case["events"]):
         corrupted = do_corrupt(node, case, rec, corrupt, slots, realized)
     if corrupted:
